@@ -111,6 +111,10 @@ type sessObs struct {
 }
 
 func sessionMain(s *simrt.Sim, info *harness.RunInfo) {
+	if s.Chance(60) {
+		sessionExpiryRace(s, info)
+		return
+	}
 	source := simrt.PickS(s, "cookie", "header", "query")
 	useSim := s.Chance(500)
 	idle := time.Duration(s.Range(3, 6)) * time.Second
@@ -1250,4 +1254,107 @@ func sessionMain(s *simrt.Sim, info *harness.RunInfo) {
 	info.StateHash = h.int(len(ids)).h
 	info.Nontrivial = staleUsed > 0 && outlived > 0
 	info.Sample = map[string]any{"config": cfgLine, "requests": len(ops)}
+}
+
+// ---- two requests of one client at the instant its session record expires ------------------------
+//
+// The counterpart of the csrf engine's scenario (the big histories are sequential per client): one client, a
+// session with data and an idle timeout of 3 s on the in-tree memory storage, whose collector ticks every second on
+// the grid of the coarse clock. At the instant at which the record is due to expire the client sends two requests
+// with its cookie, as two tasks. A request that was handed the session with its data has loaded it alive and saves it
+// when it ends (which renews the lifetime), so 1.25 s later the id still yields the data: it was neither destroyed
+// nor regenerated, and 1.25 s is well inside the renewed lifetime whichever side of the tick the save fell on.
+func sessionExpiryRace(s *simrt.Sim, info *harness.RunInfo) {
+	preempt := simrt.PickS(s, 400, 250, 600)
+	phase := s.Draw(1000)
+	// slow: the first request is handed the session half a second before the record expires and stays in its
+	// handler until the tick after that (the one at which the storage's collector first sees the record as
+	// expired), so that its save falls on that instant
+	slow := s.Chance(500)
+	var holdUntil time.Time
+	cfgLine := fmt.Sprintf("expiry-race preempt=%d phase=%d slow=%v", preempt, phase, slow)
+	s.Logf("cfg %s", cfgLine)
+	simrt.Sleep(time.Duration(phase) * time.Millisecond)
+	harness.StartCoarseClock(s, 0)
+	start := time.Now()
+	nid := 0
+	cfg := session.Config{IdleTimeout: 3 * time.Second, Storage: simexport.NewMemoryStorageGC(time.Second), KeyGenerator: func() string {
+		nid++
+		return fmt.Sprintf("race-sid-%04d-%s", nid, strings.Repeat("r", 8))
+	}}
+	app := fiber.New()
+	app.Use(session.New(cfg))
+	app.Get("/", func(c fiber.Ctx) error {
+		m := session.FromContext(c)
+		if c.Query("set") != "" {
+			m.Set("user", "alice")
+		}
+		simrt.Yield(2201)
+		body := fmt.Sprintf("fresh=%v user=%v", m.Fresh(), m.Get("user"))
+		if c.Query("hold") != "" {
+			simrt.Sleep(time.Until(holdUntil))
+		}
+		return c.SendString(body)
+	})
+	app.Handler()
+	get := func(conn *harness.Conn, path, sid string) (string, string) {
+		req := harness.Req{Method: "GET", Path: path}
+		if sid != "" {
+			req.Headers = [][2]string{{"Cookie", "session_id=" + sid}}
+		}
+		r := conn.Do(req.Bytes())
+		id := ""
+		for _, sc := range r.Header["Set-Cookie"] {
+			if v, ok := strings.CutPrefix(sc, "session_id="); ok {
+				id = strings.SplitN(v, ";", 2)[0]
+			}
+		}
+		return string(r.Body), id
+	}
+	simrt.Sleep(time.Duration(s.Draw(3))*time.Second + 250*time.Millisecond)
+	c0 := harness.NewConn(app, "10.0.0.1")
+	_, sid := get(c0, "/?set=1", "")
+	if sid == "" {
+		s.Fail("C15.harness", "expiry race: no session cookie was issued")
+		return
+	}
+	since := time.Since(start)
+	pairAt := start.Add((since/time.Second + 1) * time.Second).Add(2 * time.Second)
+	var b1, b2 string
+	s.SetPreempt(preempt)
+	var wg sync.WaitGroup
+	for i, out := range []*string{&b1, &b2} {
+		wg.Add(1)
+		at, path := pairAt, "/"
+		if slow {
+			holdUntil = pairAt.Add(time.Second)
+			at = holdUntil
+			if i == 0 {
+				at, path = pairAt.Add(-500*time.Millisecond), "/?hold=1"
+			}
+		}
+		simrt.GoNamed("request"+strconv.Itoa(i+1), func() {
+			defer wg.Done()
+			conn := harness.NewConn(app, "10.0.0.1")
+			simrt.Sleep(time.Until(at))
+			*out, _ = get(conn, path, sid)
+		})
+	}
+	join(&wg)
+	s.SetPreempt(0)
+	simrt.Sleep(1250 * time.Millisecond)
+	b3, _ := get(c0, "/", sid)
+	s.Logf("expiry race: pair saw %q and %q; 1.25 s later %q", b1, b2, b3)
+	const loaded = "fresh=false user=alice"
+	sawAlive := b1 == loaded || b2 == loaded
+	raced := sawAlive && (b1 != loaded || b2 != loaded)
+	if raced {
+		s.Count("probe_lookup_raced_with_expiry_of_the_record")
+	}
+	if sawAlive && b3 != loaded {
+		s.Fail("C15.persistent", "expiry race (slow first request: %v): a request was handed session %s with its data around the instant the record was due to expire and saved it when it ended (which renews the idle timeout of 3 s), another request of the client ran as that one ended; 1.25 s later the id yields %q instead of the data: the renewed record is gone although the session was neither destroyed nor regenerated", slow, sid, b3)
+	}
+	info.StateHash = newHasher().str(cfgLine).str(b1).str(b2).str(b3).h
+	info.Nontrivial = raced
+	info.Sample = map[string]any{"config": cfgLine}
 }
